@@ -51,6 +51,21 @@ def schedules(threads=2):
     return list(common.tagged_lines(out, "@H")), gen, distinct
 
 
+def sampled_schedules(threads, num):
+    """Random maximal behaviours of the unlocked design for more threads (TLC -simulate)."""
+    rc, out = common.run_tlc("ConverterInit", ci_cfg(False, True, ["EmitSchedule"], threads=threads, view=False), workers=1, heap="3g",
+                             extra=("-simulate", "num=%d" % num, "-depth", "40", "-seed", str(common.seed() + 7)))
+    if "Error:" in out:
+        raise common.MachineryError("schedule sampling failed:\n" + out[-1500:])
+    seen, res = set(), []
+    for h in common.tagged_lines(out, "@H"):
+        k = json.dumps([[x["t"], x["a"]] for x in h])
+        if k not in seen:
+            seen.add(k)
+            res.append(h)
+    return res
+
+
 def tkey(step):
     return (step["t"], step["a"], json.dumps(step["pcs"], sort_keys=True), step["f"], step["v"])
 
@@ -121,7 +136,7 @@ def check(tier):
     else:
         sel = list(scheds)
         hist_len, stress_runs = 3, 32
-        s3, g3, d3 = schedules(3) if False else ([], 0, 0)
+        sel += sampled_schedules(3, 150)[:300]
     rc, hout = common.run_tlc("ConverterHistory", "CONSTANTS MaxLen = %d NRuns = 0 NEvents = 0\nINIT HInit\nNEXT HNext\nINVARIANT EmitHistory\nCHECK_DEADLOCK FALSE\n" % hist_len)
     hists = list(common.tagged_lines(hout, "@H"))
     for shorter in range(1, hist_len):
